@@ -96,7 +96,20 @@ def _find_driver(ctx, facts, prefix):
     writers = lock_writers(facts)
     if not ctx.check(len(writers) >= 1, prefix, "anchor|lock-writer", "a lock-writing function exists (%s)" % ", ".join(writers), ""):
         return None
-    wcalls = [c for c in g.calls if c.name in writers]
+    # a writer may delegate the actual file operation to a private helper: calls in the driver to a
+    # function that (within two levels) reaches a lock-write site count as lock writes
+    from ..interproc import callers_index
+    idx = callers_index(facts)
+    reach_w = set(writers)
+    for _ in range(2):
+        for w in list(reach_w):
+            for (cb, c) in idx.get(w, []):
+                owner = cb
+                while owner is not None and owner.kind not in ("Fn", "AssocFn"):
+                    owner = facts.body(owner.parent) if owner.parent else None
+                if owner is not None and not re.search(edit.GENERATE + "|" + edit.CHECK, owner.id):
+                    reach_w.add(owner.id)
+    wcalls = [c for c in g.calls if c.name in reach_w]
     if not ctx.check(len(wcalls) >= 1, prefix, "no-lock-write", "the edit driver calls the lock writer (%d call(s))" % len(wcalls), g.where()):
         return None
     return g, passes[0], writers, wcalls
